@@ -816,7 +816,10 @@ def rule_TW(FA):
             if val[0] == 'bin' and val[1] == 'Sub' and val[2] == P[1]:
                 k = val[3]
                 src = [x for x in subterms(k) if _is_call_to(x, 'rank1', P)]
-                ok1 = bool(src)
+                # when the Option algebra has opened `rank1` (a single implementation is known), its payload reads
+                # `rank1_unchecked(self, i)` under rank1's own guard: the same thing, provided there IS a guard
+                opened = [x for x in subterms(k) if _is_call_to(x, 'rank1_unchecked', P)]
+                ok1 = bool(src) or (bool(opened) and bool(atoms))
             detail = show(val)
         U = FA.fn(r0u)
         ur = norm(U.local_term(0))
